@@ -6,6 +6,7 @@ HIST_RULE = ("seeded operation histories (case idx -> PRNG seed) over engineered
              "operations and crossed at least one growth step (maps) / has >= 10 operations (stacks)")
 
 ENGINE_KINDS = {
+    "gc": "collector forced at every / each single / every n-th / random subsets of a program's allocation points (allocator hook); heap-reachability audit at the dispatch hook after every instruction that collected (quarantine makes swept objects recognisable by address); released-memory checksum; self-differential against the run without collections; the same schedules under AddressSanitizer without quarantine",
     "total": "hostile inputs (arbitrary card trees through the JSON/YAML loaders, size-limit modules, hostile well-scoped programs under tiny stacks/heaps/budgets) under crash, panic, abort, native-stack-overflow and hang monitors in isolated workers",
     "resolve": "generated module trees with same-named functions, imports (function, module, super.) valid and invalid; every function logs a unique tag; reference resolver + reference interpreter decide which bodies must run and which modules must be rejected",
     "prog": "generated well-scoped card programs run in the real VM and in an independent tree-walking reference interpreter; final globals, host-call log and result kind compared",
@@ -153,5 +154,21 @@ CHECKS = {
         "targets": {"quick": {"site:absolute": 2000, "site:relative": 2000, "site:function-import": 500, "site:module-import": 200, "rejected:.*": 2000},
                     "thorough": {"site:function-import": 20000, "site:module-import": 10000, "rejected:.*": 100000}},
         "assumptions": ["resolution order: absolute path, caller module, function imports, module-prefix imports (super. walks up)"],
+    },
+    "C02": {
+        "level": "fault_enumeration",
+        "level_text": "For every generated program the collector is injected, through the allocator hook, at every allocation, at each single allocation index (exhaustively when the program has <= 400 allocation points, which is nearly always), at every 2nd/3rd/5th allocation and at 12 random subsets; after every instruction during which a collection ran a heap audit walks value stack, globals, call frames, the open-upvalue list, table keys/values, closure upvalues and captured values and checks that nothing reachable was swept (swept blocks are quarantined, so they are recognised by address without reading them), that open upvalues point into the live stack, that tables' key list and hash part agree, and that no released block was written; the observable outcome of every scheduled run is compared with the run without collections. The same programs and schedules run under AddressSanitizer (no quarantine) to catch transient reads of freed objects that leave no dangling edge. Programs: random closure/table/stdlib programs, closure scenarios, and allocation-heavy templates (table growth, rows, nested tables, temporaries on the stack, temporary closures called at once, library callbacks that allocate, host functions that allocate and re-enter).",
+        "level_note": "Trusted: the audit walker and the quarantine/checksum hook; the harness' host functions are written the way a host would write them (results guarded, arguments just used). OutOfMemory outcomes are not compared across schedules. Stacked/Tree Borrows are out of scope.",
+        "technique": "runtime monitoring with fault injection: forced collections enumerated over allocation points, heap-reachability audit at hooks, released-memory checksums, self-differential outcome, AddressSanitizer",
+        "rule": "seeded programs x enumerated GC schedules; evaluations = programs; distinct by JSON hash of program+inputs; non-trivial when the program has >= 5 allocation points and all schedules agreed",
+        "engines": [
+            {"engine": "gc", "profile": "dev", "cases": {"quick": 1500, "thorough": 40000}, "primary": True},
+            {"engine": "gc", "profile": "asan", "cases": {"quick": 50, "thorough": 4000}, "primary": False, "args": {"sanitizer": 1, "max-singles": 32},
+             "env": {"CAOVERIF_STACK_MB": "2048", "ASAN_OPTIONS": "detect_leaks=1:abort_on_error=0:halt_on_error=1"}, "stall_s": 120},
+        ],
+        "hard_floor": {"evaluations": 100, "counters": {"collections": 1000, "audits": 1000}},
+        "targets": {"quick": {"scheduled_runs": 300000, "gc_during:AppendTable": 500, "gc_during:SetProperty": 200, "gc_during:NthRow": 100, "gc_during:CallNative": 20000, "gc_during:RegisterUpvalue": 5000, "gc_during:Closure": 5000},
+                    "thorough": {"scheduled_runs": 8000000}},
+        "assumptions": ["a collection can only start inside CaoLangAllocator::alloc (the hook sits exactly where the stock threshold check is)"],
     },
 }
